@@ -48,6 +48,22 @@ def adversarial_catalogue():
     add("builtin_named_class", "class Int\n    def x: Int := 1\ndef a := 1 + 2\n")
     add("builtin_named_class2", "class Str: Int\ndef a := \"s\" + \"t\"\n")
     add("class_named_exception", "class Exception\nclass E: Exception\n")
+    # every name the context or the generator treats specially, as class name, as parent, as type alias, as function, as variable
+    for special in ["Union", "Tuple", "Callable", "Optional", "Any", "None", "Generic", "List", "Dict", "Set", "Range", "Slice", "Float",
+                    "Bool", "Complex", "Collection", "Iterable", "Iterator", "NewType", "ABC", "object", "type", "int", "str", "print",
+                    "range", "isinstance", "super", "self", "init", "__init__", "math", "typing"]:
+        add("special_class_%s" % special, "class %s\n" % special)
+        add("special_class_used_%s" % special, "class %s(def v: Int)\ndef o := %s(1)\nprint(o.v)\n" % (special, special))
+        add("special_parent_%s" % special, "class A: %s\n" % special)
+        add("special_parent_args_%s" % special, "class A(x: Int): %s(x)\n" % special)
+        add("special_alias_%s" % special, "type %s: Int when self > 0\n" % special)
+        add("special_alias_of_%s" % special, "type T: %s\n" % special)
+        add("special_function_%s" % special, "def %s(x: Int) -> Int => x\nprint(%s(1))\n" % (special, special))
+        add("special_variable_%s" % special, "def %s := 1\nprint(%s)\n" % (special, special))
+        add("special_annotation_%s" % special, "def v: %s := 1\n" % special)
+        add("special_generic_%s" % special, "def v: %s[Int] := 1\n" % special)
+        add("special_interface_%s" % special, "type %s\n    def m(self) -> Int\nclass I: %s\n    def m(self) -> Int => 1\n" % (special, special))
+        add("special_raise_%s" % special, "def f() raise [%s] => print(1)\n" % special)
     add("type_alias_self", "type T: T\n")
     add("type_alias_self_when", "type T: T when self > 0\n")
     add("type_alias_cycle", "type T: U\ntype U: T\n")
